@@ -17,7 +17,7 @@ def lex_impl(chunks, with_code=True):
     """Run picotool's lexer (the first half of Lua.from_lines) on the chunks.
     -> {'err': name} or {'toks': [dict], 'count': get_token_count()}"""
     from pico8.lua import lua, lexer
-    l = lua.Lua(8)
+    l = lua.Lua(lib.lua_version(chunks))
     try:
         l._lexer.process_lines(list(chunks))
     except Exception as e:  # noqa
